@@ -210,3 +210,204 @@ Theorem C03_stream_order_from_source : forall enum,
 Proof. exact CmpPlayerProofs.sort_streams_from_source. Qed.
 Print Assumptions C03_stream_order_from_source.
 
+
+(* ==================================================================== BEGIN clock-offset table (ClkoffDefs / ClkoffProofs)
+   The "clock offset of the stream's host" is now derived inside the model from the bytes of
+   clock-offsets.txt and the loom names of the streams (Emu/ClkoffDefs.v: fgets/sscanf of clkoff.c,
+   set_hostname of loom.c, parse_clkoff_entry/init_offsets of system.c), tied to the real functions by
+   harness/clkoff_h.c and to ovniemu end to end.  Numeric domain of the medians: see ClkoffDefs.v. *)
+From Coq Require String Ascii.
+From OV Require Import Emu.ClkoffDefs Proofs.ClkoffProofs.
+
+(* 1. When loading succeeds, the offset of stream i is the median of THE entry (names are distinct)
+   whose name equals the host name of the stream's loom, and 0 if no entry has that name.  An entry
+   of another host - a proper prefix, suffix or case variant included, equality is on the whole
+   byte string - is therefore never applied. *)
+Theorem C03_offset_is_hosts_entry : forall file sl offs,
+  trace_offsets (Some file) sl = OOk offs ->
+  exists es, load_table file = inr es /\ NoDup (map e_name es) /\ length offs = length sl /\
+    forall i, (i < length sl)%nat ->
+      let host := hostname (nth i sl []) in
+      (forall e, In e es -> e_name e = host -> e_median e = FInt (nth i offs 0)) /\
+      ((forall e, In e es -> e_name e <> host) -> nth i offs 0 = 0).
+Proof. exact offset_is_hosts_entry. Qed.
+Print Assumptions C03_offset_is_hosts_entry.
+
+(* without clock-offsets.txt every offset is 0 *)
+Theorem C03_no_table_zero : forall sl, trace_offsets None sl = OOk (map (fun _ => 0) sl).
+Proof. exact no_table_zero. Qed.
+Print Assumptions C03_no_table_zero.
+
+(* the loops of parse_clkoff_entry / init_offsets compute the plain lookup by host name or refuse an
+   unknown host; "loom already has a clock offset" (EAlready) is unreachable *)
+Theorem C03_offsets_are_lookup : forall file sl,
+  trace_offsets (Some file) sl =
+  match load_table file with
+  | inl e => OErr e
+  | inr es =>
+    match exact_entries es with
+    | None => OUnspec
+    | Some hes => if all_known hes sl then OOk (lookup_all hes sl) else OErr EUnknownHost
+    end
+  end.
+Proof. exact trace_offsets_char. Qed.
+Print Assumptions C03_offsets_are_lookup.
+
+(* 2. Order independence.  (a) any permutation of the table entries (distinct hosts): same outcome
+   (success or the same refusal), same offset for every stream;  (b) any re-enumeration of the
+   streams (same set of loom names, any order and multiplicity): same outcome, and a loom has the
+   same offset wherever its streams are;  (c) at the level of the FILE: permuting the lines of a
+   well-formed table (render_table: header + one line per row) changes nothing. *)
+Theorem C03_offsets_independent_of_order :
+  (forall es es' sl, Permutation es es' -> NoDup (map e_name es) -> entries_offsets es sl = entries_offsets es' sl) /\
+  (forall tbl sl sl', (forall l, In l sl <-> In l sl') ->
+     match trace_offsets tbl sl with
+     | OOk offs => exists offs', trace_offsets tbl sl' = OOk offs' /\ length offs' = length sl' /\
+                     forall l o, In (l, o) (combine sl offs) <-> In (l, o) (combine sl' offs')
+     | OErr e => trace_offsets tbl sl' = OErr e
+     | OUnspec => trace_offsets tbl sl' = OUnspec
+     end).
+Proof. exact (conj entries_order_independent streams_order_independent). Qed.
+Print Assumptions C03_offsets_independent_of_order.
+
+(* 2c / round trip.  A file made of a header line (any bytes, <= 1022) and well-formed lines (index, name,
+   [-]median, mean, std as digit strings separated by one blank, <= 1023 bytes; row_ok) with distinct hosts
+   loads as EXACTLY its rows, in order; with a repeated host it is refused; and permuting its LINES changes
+   neither the outcome nor any stream's offset. *)
+Theorem C03_wellformed_table_loads : forall h rows,
+  header_ok h = true -> Forall (fun r => row_ok r = true) rows -> rows <> [] -> NoDup (map r_name rows) ->
+  load_table (render_table h rows) = inr (map row_entry rows).
+Proof. exact load_rendered. Qed.
+Print Assumptions C03_wellformed_table_loads.
+
+Theorem C03_wellformed_table_duplicate_refused : forall h rows,
+  header_ok h = true -> Forall (fun r => row_ok r = true) rows -> ~ NoDup (map r_name rows) ->
+  load_table (render_table h rows) = inl EDuplicate.
+Proof. exact load_rendered_duplicate. Qed.
+Print Assumptions C03_wellformed_table_duplicate_refused.
+
+Theorem C03_table_lines_order_independent : forall h rows rows' sl,
+  header_ok h = true -> Forall (fun r => row_ok r = true) rows -> NoDup (map r_name rows) ->
+  Permutation rows rows' ->
+  trace_offsets (Some (render_table h rows)) sl = trace_offsets (Some (render_table h rows')) sl.
+Proof. exact table_lines_order_independent. Qed.
+Print Assumptions C03_table_lines_order_independent.
+
+(* 3. Table errors are refused (the emulator exits with failure), never a silently wrong offset:
+   (a) a line with fewer than 5 conversions after lines that are empty or entries;
+   (b) two lines with the same host name;  (c) an entry whose host is the host of no loom;
+   (d) conversely a successful load consumed only empty lines and 5-field lines, up to the end of the
+       file or to the first line on which sscanf returns EOF (a line of white space only: cparse
+       stops there SILENTLY - see the note in manifest.d/C03.json), with distinct names, >= 1 entry. *)
+Theorem C03_table_errors_refused :
+  (forall file hdr good es bad n rest sl,
+     file_lines file = hdr :: good ++ bad :: rest -> lines_entries good es ->
+     blank_line bad = false -> scan_line (cstr bad) = LFields n ->
+     trace_offsets (Some file) sl = OErr (EFields n) \/ trace_offsets (Some file) sl = OErr EDuplicate) /\
+  (forall file hdr good es rest sl,
+     file_lines file = hdr :: good ++ rest -> lines_entries good es -> ~ NoDup (map e_name es) ->
+     trace_offsets (Some file) sl = OErr EDuplicate) /\
+  (forall file es hes sl,
+     load_table file = inr es -> exact_entries es = Some hes ->
+     (exists e, In e es /\ forall l, In l sl -> hostname l <> e_name e) ->
+     trace_offsets (Some file) sl = OErr EUnknownHost) /\
+  (forall file es, load_table file = inr es ->
+     NoDup (map e_name es) /\ es <> [] /\ exists hdr ls, file_lines file = hdr :: ls /\ parsed_prefix ls es).
+Proof. exact table_errors_refused. Qed.
+Print Assumptions C03_table_errors_refused.
+
+(* 4. Composition with the merge theorems: the trace is (streams with loom names, table bytes).
+   run_emu_table = system_init's offsets (trace_offsets) + the player (run_emu).  hes = the
+   (host, offset) pairs the table stands for; attach hes = each stream with the offset READ OFF the
+   table by the host name of its loom; spec_corrected_table: corrected time = stream clock + offset
+   written in the table for the host of the stream's loom. *)
+Theorem C03_table_emu_replay : forall tbl enum hes,
+  table_entries tbl = Some hes ->
+  (forall h, In h (map fst hes) -> exists x, In x enum /\ hostname (t_loom (snd x)) = h) ->
+  let enum' := map (attach hes) enum in
+  (forall x, In x enum' -> stream_ok (snd x) = true) -> gate_ok (trace_streams enum') = true ->
+  exists out, run_emu_table tbl enum = OOk (out, VOk) /\
+    spec_all (trace_streams enum') out /\ spec_corrected_table hes (trace_tstreams enum) out.
+Proof. exact table_replay. Qed.
+Print Assumptions C03_table_emu_replay.
+
+(* C03_merge_complete, C03_stream_order, C03_sorted and C03_paraver_time for a completed replay *)
+Theorem C03_table_sorted_paraver_time : forall tbl enum out,
+  run_emu_table tbl enum = OOk (out, VOk) ->
+  exists hes, table_entries tbl = Some hes /\
+    spec_corrected_table hes (trace_tstreams enum) out /\ spec_sorted out /\ spec_dclock out /\
+    spec_complete (trace_streams (map (attach hes) enum)) out /\
+    spec_stream_order (trace_streams (map (attach hes) enum)) out.
+Proof.
+  intros tbl enum out E. destruct (table_completed tbl enum out E) as [hes [X [[S1 [S2 [_ [S4 S5]]]] T]]].
+  exists hes. auto 10.
+Qed.
+Print Assumptions C03_table_sorted_paraver_time.
+
+(* a table error never reaches the player *)
+Theorem C03_table_error_no_run : forall file enum e,
+  load_table file = inl e -> run_emu_table (Some file) enum = OErr e.
+Proof. exact table_error_no_run. Qed.
+Print Assumptions C03_table_error_no_run.
+
+(* ---- non-vacuity (in a module: String shadows List.length) *)
+Module ClkoffEx.
+Import String Ascii.
+Definition bs (s : string) : list Z := List.map (fun a => Z.of_N (N_of_ascii a)) (list_ascii_of_string s).
+Definition ln (s : string) : string := s.
+Definition tab (lines : list string) : list Z := List.concat (List.map (fun l => (bs l ++ [10])%list) lines).
+Definition ex_hdr : string := "rank       hostname             offset_median        offset_mean          offset_std".
+Definition ex_l10 : string := "0          node10               0                    0.000000             0.000000".
+Definition ex_l1 : string :=  "1          node1                -5000                -5000.100000         135.286341".
+Definition ex_l3 : string :=  "2          node3                77.9                 1 1".
+Definition ex_tab : list Z := tab [ex_hdr; ex_l10; ex_l1; ln ""; ex_l3].
+Definition ex_tab_shuffled : list Z := tab [ex_hdr; ex_l3; ex_l1; ex_l10].
+Definition ex_looms : list (list Z) :=
+  [bs "node10.0"; bs "node1.0"; bs "node2.0"; bs "node1.1"; bs "Node1.0"; bs "anode1.0"; bs "node"; bs "node3"].
+
+(* node1 / node10, two looms of one host, a loom name without dot, looms without entry (other name,
+   case variant, suffix, prefix); the same with the lines and the streams in another order *)
+Example C03_ex_offsets :
+  trace_offsets (Some ex_tab) ex_looms = OOk [0; -5000; 0; -5000; 0; 0; 0; 77] /\
+  trace_offsets (Some ex_tab_shuffled) (rev ex_looms) = OOk (rev [0; -5000; 0; -5000; 0; 0; 0; 77]).
+Proof. vm_compute. auto. Qed.
+
+(* refused: host of no loom (also: a name with a domain can never match, host names stop at the first dot);
+   duplicate host; 4 columns; text in a numeric column; header only; empty file *)
+Example C03_ex_refused :
+  trace_offsets (Some ex_tab) [bs "node10.0"; bs "node1.0"] = OErr EUnknownHost /\
+  trace_offsets (Some (tab [ex_hdr; ln "0 node1.cluster.net 5 5 5"])) [bs "node1.cluster.net"] = OErr EUnknownHost /\
+  trace_offsets (Some (tab [ex_hdr; ex_l1; ex_l10; ln "7 node1 3 3 3"])) ex_looms = OErr EDuplicate /\
+  trace_offsets (Some (tab [ex_hdr; ex_l1; ln "1 node10 12 12.0"])) ex_looms = OErr (EFields 4) /\
+  trace_offsets (Some (tab [ex_hdr; ex_l1; ln "1 node10 abc 1 1"])) ex_looms = OErr (EFields 2) /\
+  trace_offsets (Some (tab [ex_hdr])) ex_looms = OErr ENoEntries /\
+  trace_offsets (Some []) ex_looms = OErr EMissingHeader.
+Proof. vm_compute. auto 10. Qed.
+
+(* conversions are not delimited by white space; a median outside the exact domain is not modelled *)
+Example C03_ex_scanf :
+  load_table (tab [ex_hdr; ln "5host 1.5.3 7"]) = inr [mkentry 5 (bs "host") (FInt 1)] /\
+  trace_offsets (Some (tab [ex_hdr; ln "0 node1 1e3 1 1"])) [bs "node1.0"] = OUnspec /\
+  trace_offsets (Some (tab [ex_hdr; ln "0 node1 0.99999999999999999999 1 1"])) [bs "node1.0"] = OUnspec.
+Proof. vm_compute. auto. Qed.
+
+(* the trace of seeded change C03-6: node10 is the reference, node1 is 5000 behind *)
+Definition ex_tenum : list (list Z * tstrm) :=
+  [ (bs "loom.node10.0/proc.1/thread.1", mktstrm (bs "node10.0") [(101000, 0); (103000, 1)]);
+    (bs "loom.node1.0/proc.2/thread.2", mktstrm (bs "node1.0") [(107000, 0); (109000, 1)]) ].
+Example C03_ex_table_run :
+  option_map (fun r => (map (fun o => (o_id o, o_rclock o, o_sclock o, o_dclock o)) (fst r), snd r))
+    (match run_emu_table (Some (tab [ex_hdr; ex_l10; ex_l1])) ex_tenum with OOk r => Some r | _ => None end) =
+  Some ([ (1%nat, 101000, 101000, 0); (0%nat, 107000, 102000, 1000); (1%nat, 103000, 103000, 2000); (0%nat, 109000, 104000, 3000) ], VOk).
+Proof. vm_compute. reflexivity. Qed.
+(* rows in the sense of C03_wellformed_table_loads: the rendered file is what one expects *)
+Definition ex_rows : list row :=
+  [ mkrow (bs "0") (bs "node10") false (bs "0") (bs "0") (bs "0");
+    mkrow (bs "1") (bs "node1") true (bs "5000") (bs "5000") (bs "135") ].
+Example C03_ex_rows :
+  forallb row_ok ex_rows = true /\ header_ok (bs ex_hdr) = true /\
+  render_table (bs ex_hdr) ex_rows = tab [ex_hdr; ln "0 node10 0 0 0"; ln "1 node1 -5000 5000 135"] /\
+  trace_offsets (Some (render_table (bs ex_hdr) ex_rows)) [bs "node1.7"; bs "node10.3"] = OOk [-5000; 0].
+Proof. vm_compute. auto. Qed.
+End ClkoffEx.
+(* ==================================================================== END clock-offset table *)
